@@ -203,7 +203,7 @@ PROPS = {
                 "Non-trivial = >= 2 concurrent tasks, or a cut inside a line / between CR and LF, or a line > 4096 bytes, or an escape "
                 "sequence; formats: every case (distinct by canonical JSON). ",
         "assumptions": ["ANSI sequences are the CSI grammar ESC [ digits/; final in mHJKABCDfnr with parameters of at most 4 digits",
-                        "text alphabet excludes ESC, 0x9B, NUL and BEL"],
+                        "text alphabet excludes ESC, 0x9B and NUL (BEL is included, also right behind a colour sequence)"],
         "parts": [
             {"name": "streams", "test": "TestStreams", "checks": {Q: 12000, T: 400000}, "shards": {Q: 8, T: 16}, "timeout": {Q: 400, T: 2400}},
             {"name": "probe", "test": "TestProbeAnsiSplit", "checks": {Q: 400, T: 4000}, "shards": {Q: 1, T: 4}, "timeout": {Q: 300, T: 900}},
